@@ -40,12 +40,12 @@ def r1_sole_writer(c, facts):
                 continue
             d = P.strip(info['def'])
             if d.endswith('FileSystem::write_file'):
-                sites.append((fn.qname, t['ln']))
+                sites.append((facts.home(fn).qname, t['ln']))      # a new private helper of run() counts as run()
             if RAW_WRITERS.match(d):
                 # writes to a File handle obtained from a writing API, or direct fs writers
                 if d.startswith('std::io::Write::') and 'File' not in info.get('self_ty', ''):
                     continue
-                raw.append((fn.qname, d, t['ln']))
+                raw.append((facts.home(fn).qname, d, t['ln']))
     if [q for q, _ in sites] == ['oal_cli::run']:
         c.ok(R, {'write_file call sites': sites})
     else:
@@ -308,7 +308,7 @@ def r4_err_disc(c, facts):
             else:
                 c.bad(R, '%s::compile:error-not-logged' % st, '%s::compile no longer logs the compiler error' % st)
         else:
-            rep = P.call_blocks(comp, 'Processor::report', 'oal_wasm::report', 'report')
+            rep = [x for g in facts.family(comp) if g.mir for x in P.call_blocks(g, 'Processor::report', 'oal_wasm::report', 'report')]      # also through a shared failure helper
             if rep:
                 c.ok(R, {'loader': st, 'compile': 'reports the located error'})
             else:
@@ -343,7 +343,7 @@ def r4_err_disc(c, facts):
         c.bad(R, 'wasm-process:eval-error-not-propagated', 'oal_wasm::process no longer propagates evaluation errors')
     # the LSP Workspace::load logs loader errors
     wl = c.anchor(R, 'oal_client::lsp::Workspace::load')
-    if any(P.call_blocks(cl, 'Workspace::log_compiler_error') for cl in facts.closures_of(wl)) or P.call_blocks(wl, 'Workspace::log_compiler_error'):
+    if any(P.call_blocks(g, 'Workspace::log_compiler_error') for g in facts.family(wl) if g.mir):      # closures and private helpers
         c.ok(R, {'Workspace::load': 'logs errors raised by module::load itself (cycles, missing imports)'})
     else:
         c.bad(R, 'lsp-load-errors-not-logged', 'Workspace::load no longer logs module::load errors (import cycle / missing import produce no diagnostic)')
@@ -502,7 +502,7 @@ def r11_located(c, facts):
     # those of the loader's own I/O (an import that exists but cannot be read) included
     wl = c.anchor(R, 'oal_client::lsp::Workspace::load')
     silent = False
-    for g in [wl] + list(facts.closures_of(wl)):
+    for g in facts.family(wl):
         if not g.mir or not P.call_blocks(g, 'Workspace::log_compiler_error'):
             continue
         logs = {b for b, _ in P.call_blocks(g, 'Workspace::log_compiler_error')} | {b for b, _ in P.call_blocks(g, 'Workspace::log_error')}
